@@ -93,7 +93,7 @@ theorem visible_not_hidden {s : Sys} {c : Nat} (hv : visible s c = true) : (s.ob
 
 theorem ob_default {s : Sys} {i : Nat} (h : s.n ≤ i) : s.ob i = default := by
   unfold Sys.ob Sys.n at *
-  simp [List.getD, List.getElem?_eq_none h]
+  simp [Array.getD, Nat.not_lt.mpr h]
 
 theorem contents_nil_of_ge {s : Sys} {i : Nat} (h : s.n ≤ i) : (s.ob i).contents = [] := by
   rw [ob_default h]; rfl
@@ -1226,7 +1226,7 @@ def mkObj (name : Name) (kind : Kind) (parent : Option Nat) (privacy : Level) (c
 /-- `m.py`: `class C: pass` twice. Object 1 is the superseded first definition `'C 0'`: registered in
 `allobjects`, not in `m.contents`. -/
 def sSuperseded : Sys :=
-  { objs := [ mkObj ['m'] .module none .pub [2],
+  { objs := #[ mkObj ['m'] .module none .pub [2],
               mkObj ['C', ' ', '0'] .cls (some 0) .pub [],
               mkObj ['C'] .cls (some 0) .pub [] ],
     all := [0, 1, 2], roots := [0], depth := 1, nosidebar := false }
@@ -1244,7 +1244,7 @@ theorem links_resolve_counterexample_superseded_old :
 
 /-- `class _H` is HIDDEN, `class V(_H)` is visible. -/
 def sHidden : Sys :=
-  { objs := [ mkObj ['m'] .module none .pub [1, 2],
+  { objs := #[ mkObj ['m'] .module none .pub [1, 2],
               mkObj ['_', 'H'] .cls (some 0) .hidden [],
               { mkObj ['V'] .cls (some 0) .pub [] with
                   bases := [some 1], baseNames := [['m', '.', '_', 'H']], mro := [2, 1], sigrefs := [some 1] } ],
@@ -1262,7 +1262,7 @@ theorem links_resolve_counterexample_hidden_old :
 /-- `class B` with `meth` and `o` (docstring: see `L{meth}`); `class S(B)` redefines `o` without docstring.
 `S.o` (5) shows the docstring of `B.o` (3), whose linker remembers the page of `B` (`docCtx = 1`). -/
 def sContext : Sys :=
-  { objs := [ mkObj ['m'] .module none .pub [1, 4],
+  { objs := #[ mkObj ['m'] .module none .pub [1, 4],
               { mkObj ['B'] .cls (some 0) .pub [2, 3] with mro := [1] },
               mkObj ['m', 'e', 't', 'h'] .function (some 1) .pub [],
               { mkObj ['o'] .function (some 1) .pub [] with docSource := some 3, docCtx := some 1, xrefs := [2], hasDoc := true },
@@ -1285,7 +1285,7 @@ theorem links_resolve_counterexample_context_old :
 
 /-- `class C` twice, `class D(C)` in between: D's base is the superseded `'C 0'`. -/
 def sHierarchy : Sys :=
-  { objs := [ mkObj ['m'] .module none .pub [2, 3],
+  { objs := #[ mkObj ['m'] .module none .pub [2, 3],
               mkObj ['C', ' ', '0'] .cls (some 0) .pub [],
               mkObj ['C'] .cls (some 0) .pub [],
               { mkObj ['D'] .cls (some 0) .pub [] with
@@ -1304,7 +1304,7 @@ theorem inhierarchy_counterexample_old :
 /-- `class K` (no bases, object 2) and `C_r` (object 1) whose base `m.K` could not be resolved; `C_r` is
 registered first. -/
 def sCollision : Sys :=
-  { objs := [ mkObj ['m'] .module none .pub [1, 2],
+  { objs := #[ mkObj ['m'] .module none .pub [1, 2],
               { mkObj ['C', '_', 'r'] .cls (some 0) .pub [] with
                   bases := [none], baseNames := [['m', '.', 'K']], mro := [1], sigrefs := [none] },
               { mkObj ['K'] .cls (some 0) .pub [] with mro := [2] } ],
@@ -1323,7 +1323,7 @@ theorem inhierarchy_counterexample_collision_old :
 
 /-- `m.py`: `class K: def f(self): …`, everything visible -/
 def sPlain : Sys :=
-  { objs := [ mkObj ['m'] .module none .pub [1],
+  { objs := #[ mkObj ['m'] .module none .pub [1],
               { mkObj ['K'] .cls (some 0) .priv [2] with mro := [1] },
               mkObj ['f'] .function (some 1) .pub [] ],
     all := [0, 1, 2], roots := [0], depth := 2, nosidebar := false }
